@@ -29,6 +29,11 @@ theorem keyLeIdx_trans (a b c : Split × Nat) : keyLeIdx a b = true → keyLeIdx
   isLE_trans_of Split.keyCmp a.1 b.1 c.1
 theorem keyLeIdx_total (a b : Split × Nat) : (keyLeIdx a b || keyLeIdx b a) = true := isLE_total_of Split.keyCmp a.1 b.1
 
+theorem order_eq (splits : List Split) : order splits = splits.zipIdx.mergeSort lptLe :=
+  IQE.StableSort.sort_eq_mergeSort lptLe_trans lptLe_total _
+theorem sortOwned_eq (l : List (Split × Nat)) : sortOwned l = (l.mergeSort keyLeIdx).map (·.2) := by
+  unfold sortOwned; rw [IQE.StableSort.sort_eq_mergeSort keyLeIdx_trans keyLeIdx_total]
+
 /-! ### generic list facts -/
 
 theorem modify_map_comm {α β} (g : α → β) (f : α → α) (f' : β → β) (h : ∀ x, g (f x) = f' (g x)) :
@@ -258,7 +263,8 @@ theorem inv_greedy (splits : List Split) (nodes : Nat) :
   have := inv_foldl (max nodes 1) (by omega) (order splits) (init (max nodes 1)) [] (inv_init _)
   simpa [greedy] using this
 
-theorem order_perm (splits : List Split) : (order splits).Perm splits.zipIdx := List.mergeSort_perm _ _
+theorem order_perm (splits : List Split) : (order splits).Perm splits.zipIdx := by
+  rw [order_eq]; exact List.mergeSort_perm _ _
 
 theorem mem_order {splits : List Split} {p : Split × Nat} (h : p ∈ order splits) : splits[p.2]? = some p.1 := by
   have : p ∈ splits.zipIdx := (order_perm splits).mem_iff.1 h
@@ -266,8 +272,8 @@ theorem mem_order {splits : List Split} {p : Split × Nat} (h : p ∈ order spli
 
 /-! ### finishing: per-node canonical sort -/
 
-theorem sortOwned_perm (l : List (Split × Nat)) : (sortOwned l).Perm (l.map (·.2)) :=
-  (List.mergeSort_perm l keyLeIdx).map _
+theorem sortOwned_perm (l : List (Split × Nat)) : (sortOwned l).Perm (l.map (·.2)) := by
+  rw [sortOwned_eq]; exact (List.mergeSort_perm l keyLeIdx).map _
 
 theorem flatten_map_sortOwned : ∀ L : List (List (Split × Nat)),
     (L.map sortOwned).flatten.Perm (L.flatten.map (·.2))
@@ -279,8 +285,7 @@ theorem flatten_map_sortOwned : ∀ L : List (List (Split × Nat)),
 /-- the indices a node owns, looked up again in the split list, are the pairs it was given -/
 theorem sortOwned_lookup (splits : List Split) (l : List (Split × Nat)) (h : ∀ p ∈ l, splits[p.2]? = some p.1) :
     (sortOwned l).map (fun i => splits[i]!) = (l.mergeSort keyLeIdx).map (·.1) := by
-  unfold sortOwned
-  rw [List.map_map]
+  rw [sortOwned_eq, List.map_map]
   apply List.map_congr_left
   intro p hp
   have := h p (List.mem_mergeSort.1 hp)
